@@ -136,8 +136,9 @@ def translate_c_to_cirq(source_circuit, noise_model=None, save_measurements=Fals
             raise ValueError(f"Gate '{gate.name}' not supported on backend cirq")
 
         # Add noisy gates
-        if noise_model and (gate.name in noise_model.noisy_gates):
-            for nt, np in noise_model._quantum_errors[gate.name]:
+        # Look the noise up under the name of the source gate (a multi-controlled CNOT is translated as CX)
+        if noise_model and (source_gate.name in noise_model.noisy_gates):
+            for nt, np in noise_model._quantum_errors[source_gate.name]:
                 if nt == 'pauli':
                     # Define pauli gate in cirq language
                     depo = cirq.asymmetric_depolarize(np[0], np[1], np[2])
